@@ -2,7 +2,7 @@
    Directives: ExtrOcamlBasic only (bool, option, list, prod, unit, sumbool -> OCaml natives);
    N, Z, positive stay Coq datatypes. *)
 From Coq Require Extraction ExtrOcamlBasic.
-From Schwifty Require Import Lib.Base Lib.Regex Model.Clean Model.Data Model.Iban Model.Bic Model.Bban Model.Registry Model.Lookup Model.National Model.Algorithms Model.Germany Model.Random Lib.Json.
+From Schwifty Require Import Lib.Base Lib.Regex Model.Clean Model.Data Model.Iban Model.Bic Model.Bban Model.Generate Model.Registry Model.Lookup Model.National Model.Algorithms Model.Germany Model.Random Lib.Json.
 From Schwifty Require Import Gen.Env Gen.IbanData Gen.IbanCfg Gen.BicCfg Gen.ChecksumCfg Gen.GermanyTbl.
 From Schwifty Require Import Spec.Iso13616 Spec.Iso9362 Spec.Defects Spec.RegistrySpec Spec.NationalPublished Spec.Bundesbank.
 From Coq Require Import String Ascii.
@@ -36,8 +36,7 @@ Definition x_iban_is_valid (R : banks) := iban_is_valid the_env the_iban_cfg the
 Definition x_iban_from_bban (R : banks) := iban_from_bban the_env the_iban_cfg the_table (x_national R).
 Definition x_from_components := from_components the_env (ic_components the_iban_cfg) the_table x_find_algo.
 Definition x_generate (R : banks) (cc bank account branch : text) : outcome text :=
-  do b <- x_from_components cc [(k_bank, bank); (k_branch, branch); (k_account, account)];
-  x_iban_from_bban R cc b false false.
+  iban_generate the_env the_iban_cfg the_table (x_national R) (ic_components the_iban_cfg) x_find_algo cc bank account branch.
 Definition s_published_ok := published_ok.
 Definition s_has_published (cc : text) : bool := match published cc with Some _ => true | None => false end.
 Definition x_iban_formatted := iban_formatted.
